@@ -9,19 +9,21 @@ NT, NM, NS, NN = 10, 4, 6, 6      # instants, measurements, tag-value ranks, fie
 
 
 class Gen:
-    def __init__(self, seed, ntk=NTK, nfk=NFK, focus=None, handles=0.0, regex=True):
+    def __init__(self, seed, ntk=NTK, nfk=NFK, focus=None, handles=0.0, regex=True, nt=NT, now=0.0):
         self.r = random.Random(seed)
         self.ntk, self.nfk = ntk, nfk
         self.focus = focus or {}
         self.handles = handles
         self.regex = regex
+        self.nt = nt
+        self.now = now          # probability that an inserted point carries no time (gets the insertion time)
 
     # ---- values ---------------------------------------------------------------------
     def point(self, t=None):
         r = self.r
         tg = [MISSING if r.random() < 0.4 else (NONE if r.random() < 0.2 else r.randrange(NS)) for _ in range(self.ntk)]
         fd = [MISSING if r.random() < 0.4 else (NONE if r.random() < 0.2 else r.randrange(NN)) for _ in range(self.nfk)]
-        return {"t": r.randrange(NT) if t is None else t, "m": r.randrange(NM - 1), "tg": tg, "fd": fd}
+        return {"t": r.randrange(self.nt) if t is None else t, "m": r.randrange(NM - 1), "tg": tg, "fd": fd}
 
     def meas(self, p_none=0.5):
         return NONE if self.r.random() < p_none else self.r.randrange(NM)
@@ -35,7 +37,9 @@ class Gen:
         if k in ("tag", "field"):
             a["key"] = r.randrange(1, (self.ntk if k == "tag" else self.nfk) + 1)
         roll = r.random()
-        nvals = {"time": NT, "meas": NM, "tag": NS, "field": NN}[k]
+        if k == "time" and self.now > 0 and roll >= 0.62:
+            roll = 0.0 if roll < 0.96 else 0.99       # with insertion-time stamps around: comparisons and noop only
+        nvals = {"time": self.nt, "meas": NM, "tag": NS, "field": NN}[k]
         if roll < 0.62:
             a["op"] = r.choice(ops)
             a["v"] = r.randrange(nvals)
@@ -81,8 +85,8 @@ class Gen:
         parts = r.sample(["t", "m", "tg", "fd", "utg", "ufd"], r.choice([1, 1, 1, 2, 2, 3]))
         for p in parts:
             if p == "t":
-                u["tk"] = r.choice([1, 2])
-                u["tv"] = r.randrange(1, NT) if u["tk"] == 1 else r.choice([1, 2])     # rank 0 is falsy-free anyway
+                u["tk"] = r.choice([1, 2]) if self.now == 0 else 1
+                u["tv"] = r.randrange(1, self.nt) if u["tk"] == 1 else r.choice([1, 2])
             elif p == "m":
                 u["mk"] = r.choice([1, 2])
                 u["mv"] = r.randrange(NM) if u["mk"] == 1 else 1
@@ -157,15 +161,17 @@ class Gen:
         if op == "insert":
             t = None
             if tmax_hint is not None and r.random() < 0.7:
-                t = min(NT - 1, tmax_hint + r.choice([0, 0, 1]))      # mostly in order, with ties
+                t = min(self.nt - 1, tmax_hint + r.choice([0, 0, 1]))      # mostly in order, with ties
             a.update({"p": self.point(t), "m": self.meas(0.8), "compact": 1 if r.random() < 0.2 else 0})
+            if r.random() < self.now:
+                a["p"]["t"] = -5          # no time: the database stamps the point with the insertion time
         elif op == "insert_multiple":
             n = r.choice([0, 1, 2, 3])
             ps = [self.point() for _ in range(n)]
             if tmax_hint is not None and r.random() < 0.5:
                 # a batch that is not earlier than what is stored, but maybe unordered within itself
                 for p in ps:
-                    p["t"] = min(NT - 1, tmax_hint + r.choice([0, 0, 1, 2, 3]))
+                    p["t"] = min(self.nt - 1, tmax_hint + r.choice([0, 0, 1, 2, 3]))
             a.update({"ps": ps, "m": self.meas(0.8), "bad": 1 if r.random() < w.get("bad", 0.15) else 0})
         elif op == "remove":
             a.update({"q": self.query(), "m": self.meas(0.7)})
@@ -196,6 +202,9 @@ class Gen:
                     tmax = max(tmax, a["p"]["t"])
                 if a["op"] == "insert_multiple":
                     tmax = max([tmax] + [p["t"] for p in a["ps"]])
+                    if self.r.random() < self.now and a["ps"]:
+                        for p in a["ps"][:: 2]:
+                            p["t"] = -5
                 ops.append(a)
         return ops
 
